@@ -385,9 +385,11 @@ class Ctx:
 
     def feasible(self, st, timeout_ms=300):
         s = z3.Solver()
-        # the deterministic resource limit (guarded_check) is what bounds this query; the wall-clock timeout is only a safety net, so that
-        # which paths are pruned - and therefore which obligations exist - does not depend on how busy the machine is
-        s.set("timeout", timeout_ms * 20)
+        # bounded by the wall clock AND the deterministic resource limit (guarded_check).  Under load the wall clock can cut a query that
+        # would have been unsat: the path is then kept, and its obligations (with contradictory hypotheses) are discharged like any other -
+        # the number of obligations may differ by a few between runs, the verdicts do not.  (Bounding by rlimit alone made the set
+        # deterministic but the quick tier 2-5x slower: not adopted.)
+        s.set("timeout", timeout_ms)
         for h in st.hyps():
             s.add(h)
         from .values import guarded_check
